@@ -12,7 +12,7 @@
 (*       the request into sendFailQueue, makes sure a live connection exists (ReConnect) and exits.     *)
 (* Fix = FALSE is the code as originally written.                                                       *)
 EXTENDS Integers, Sequences, FiniteSets, TLC
-CONSTANTS MaxConn, Reqs, Fix
+CONSTANTS MaxConn, Reqs, Fix, RedialFirst
 Conns == 1..MaxConn
 VARIABLES
   isClosed, cur, nconn,          \* shared connection struct: flag, index of the current TCP connection, connections dialled so far
@@ -47,6 +47,7 @@ DialEffect == /\ nconn' = nconn + 1 /\ cur' = nconn + 1 /\ isClosed' = FALSE
 \* ---------------------------------------------------------------- caller of request r: Send = ReConnect, then enqueue
 CallStart(r) ==
   /\ cpc[r] = "idle" /\ cpc' = [cpc EXCEPT ![r] = "calling"]
+  \* issued when every earlier connection is known dead: the client owes it a fresh connection
   /\ issuedAfterDead' = IF nconn >= 1 /\ (\A k \in 1..nconn : lclosed[k]) THEN issuedAfterDead \cup {r} ELSE issuedAfterDead
   /\ UNCHANGED <<isClosed, cur, nconn, lclosed, pclosed, connDone, spc, sm, rpc, sendQ, failQ, recvq, srvGot, replied, wroteDead, dialHealthy>>
 ReConnectDial(r) ==
@@ -138,21 +139,24 @@ SWrite(k) ==     \* conn.Write(m.req): fails on a locally closed connection; on 
         /\ spc' = [spc EXCEPT ![k] = "top"] /\ sm' = [sm EXCEPT ![k] = 0]
         /\ srvGot' = IF pclosed[k] THEN srvGot ELSE [srvGot EXCEPT ![k] = @ \cup {sm[k]}]
   /\ UNCHANGED <<isClosed, cur, nconn, lclosed, pclosed, connDone, rpc, sendQ, failQ, recvq, replied, cpc, issuedAfterDead, wroteDead, dialHealthy>>
+\* hand-over, RedialFirst = FALSE: sendFailQueue <- m, then ReConnect;  TRUE: ReConnect first (so that a live sender exists
+\* to drain the one-slot failure queue), then sendFailQueue <- m
 SRequeue(k) ==   \* sendFailQueue <- m  (after a write error, or on hand-over)
-  /\ spc[k] \in {"requeue", "handover"} /\ Len(failQ) < 1
+  /\ spc[k] \in (IF RedialFirst THEN {"requeue", "handover2"} ELSE {"requeue", "handover"}) /\ Len(failQ) < 1
   /\ failQ' = Append(failQ, sm[k]) /\ sm' = [sm EXCEPT ![k] = 0]
-  /\ spc' = [spc EXCEPT ![k] = IF spc[k] = "requeue" THEN "closing" ELSE "redial"]
+  /\ spc' = [spc EXCEPT ![k] = IF spc[k] = "requeue" THEN "closing" ELSE IF RedialFirst THEN "exited" ELSE "redial"]
   /\ UNCHANGED <<isClosed, cur, nconn, lclosed, pclosed, connDone, rpc, sendQ, recvq, srvGot, replied, cpc, issuedAfterDead, wroteDead, dialHealthy>>
 SClose(k) ==     \* c.close(conn) after a write error; the sender then returns
   /\ spc[k] = "closing" /\ CloseEffect(k) /\ spc' = [spc EXCEPT ![k] = "exited"]
   /\ UNCHANGED <<cur, nconn, pclosed, connDone, sm, rpc, sendQ, failQ, recvq, srvGot, replied, cpc, issuedAfterDead, wroteDead, dialHealthy>>
-SRedial(k) ==    \* (repaired) hand-over: make sure a live connection exists, then return
-  /\ spc[k] = "redial"
-  /\ IF isClosed /\ nconn < MaxConn
+SRedial(k) ==    \* (repaired) hand-over: make sure a live connection exists
+  /\ spc[k] = (IF RedialFirst THEN "handover" ELSE "redial")
+  /\ LET next == IF RedialFirst THEN "handover2" ELSE "exited" IN
+     IF isClosed /\ nconn < MaxConn
        THEN /\ nconn' = nconn + 1 /\ cur' = nconn + 1 /\ isClosed' = FALSE
-            /\ spc' = [spc EXCEPT ![k] = "exited", ![nconn + 1] = "top"] /\ rpc' = [rpc EXCEPT ![nconn + 1] = "reading"]
+            /\ spc' = [spc EXCEPT ![k] = next, ![nconn + 1] = "top"] /\ rpc' = [rpc EXCEPT ![nconn + 1] = "reading"]
             /\ dialHealthy' = (dialHealthy \/ Healthy(cur))
-       ELSE spc' = [spc EXCEPT ![k] = "exited"] /\ UNCHANGED <<nconn, cur, isClosed, rpc, dialHealthy>>
+       ELSE spc' = [spc EXCEPT ![k] = next] /\ UNCHANGED <<nconn, cur, isClosed, rpc, dialHealthy>>
   /\ UNCHANGED <<lclosed, pclosed, connDone, sm, sendQ, failQ, recvq, srvGot, replied, cpc, issuedAfterDead, wroteDead>>
 
 \* ---------------------------------------------------------------- receiver goroutine of connection k
@@ -169,14 +173,15 @@ Reply(k, r) ==
   /\ r \in srvGot[k] /\ r \notin replied /\ ~pclosed[k] /\ ~lclosed[k] /\ rpc[k] = "reading"
   /\ replied' = replied \cup {r} /\ cpc' = [cpc EXCEPT ![r] = IF cpc[r] = "wait" THEN "done" ELSE cpc[r]]
   /\ UNCHANGED <<isClosed, cur, nconn, lclosed, pclosed, connDone, spc, sm, rpc, sendQ, failQ, recvq, srvGot, issuedAfterDead, wroteDead, dialHealthy>>
-\* the statement's premise: the server closes a connection while the client is idle (after any response, idle close,
-\* restart between calls, close notification), not in the middle of a call
+\* The server may close a connection at any moment at which it owes no answer on it (after any response, idle close,
+\* restart, close notification) -- also while calls are under way on the client side.  A call under way races with the close
+\* (its request may be on its way to that connection): it loses its obligation; it gets one again when the client itself
+\* holds the request back from a connection it knows to be dead (SCheck).  The other two clauses hold for every schedule.
 NoCallInProgress == \A r \in Reqs : cpc[r] \in {"idle", "done", "timedout"}
 ServerClose(k) ==
-  /\ k <= nconn /\ ~pclosed[k] /\ srvGot[k] \subseteq replied /\ NoCallInProgress
+  /\ k <= nconn /\ ~pclosed[k] /\ srvGot[k] \subseteq replied
   /\ pclosed' = [pclosed EXCEPT ![k] = TRUE]
-  \* a call that is in progress while the server closes a connection races with that close: the property speaks of calls issued after it
-  /\ issuedAfterDead' = {r \in issuedAfterDead : cpc[r] \in {"idle", "done"}}
+  /\ issuedAfterDead' = {r \in issuedAfterDead : cpc[r] \in {"idle", "done", "timedout"}}
   /\ UNCHANGED <<isClosed, cur, nconn, lclosed, connDone, spc, sm, rpc, sendQ, failQ, recvq, srvGot, replied, cpc, wroteDead, dialHealthy>>
 
 \* steps that need neither the ticker, nor a caller's timeout, nor a new call, nor the server's whim
